@@ -4,14 +4,18 @@
 set -u
 patch=$(readlink -f "$1"); shift
 props=${@:-C01 C02 C04 C05 C06 C07 C08 C09 C10 C11 C12 C13 C14 C15 C16 C17 C18 C19 C20}
+# env REPO=<scratch worktree of /repo at HEAD> runs against that copy instead (evidence then goes to a scratch directory)
+REPO=${REPO:-/repo}
 cd /verif
-if ! git -C /repo diff --quiet; then echo "/repo is dirty, refusing"; exit 2; fi
-git -C /repo apply "$patch" || { echo "patch does not apply"; exit 2; }
-trap 'git -C /repo checkout -- . ; git -C /repo clean -fdq -- . ' EXIT
+if ! git -C $REPO diff --quiet; then echo "$REPO is dirty, refusing"; exit 2; fi
+git -C $REPO apply "$patch" || { echo "patch does not apply"; exit 2; }
+trap 'git -C $REPO checkout -- . ; git -C $REPO clean -fdq -- . ' EXIT
 tmp=$(mktemp -d)
+extra=""; [ "$REPO" != /repo ] && extra="-repo $REPO -verif $tmp/ev"
+chk=${CHECKER:-bin/checker}
 for p in $props; do
-  ( bin/checker -property $p > $tmp/$p.out 2>&1; echo $? > $tmp/$p.rc ) &
-  while [ $(jobs -r | wc -l) -ge 6 ]; do sleep 0.2; done
+  ( $chk $extra -property $p > $tmp/$p.out 2>&1; echo $? > $tmp/$p.rc ) &
+  while [ $(jobs -r | wc -l) -ge ${JOBS:-6} ]; do sleep 0.2; done
 done
 wait
 for p in $props; do
